@@ -1006,7 +1006,7 @@ func TestC02(t *testing.T) {
 	if explicit {
 		return
 	}
-	vcore.Check(t, vcore.N(100, 800), func(rt *rapid.T) {
+	vcore.Check(t, vcore.N(100, 2000), func(rt *rapid.T) {
 		runPipeline(rt, pipeline.Gen(rt))
 	})
 	vcore.Check(t, vcore.N(300, 3000), func(rt *rapid.T) {
